@@ -312,3 +312,50 @@ func H_C14_coerce() {
 	}
 	vrtAssert(refEqual(r1, r2), "result depends on the Go type that carries the number")
 }
+
+// H_C14_close: two values that lie within two units of each other at the
+// limits of the carriers (2^24, 2^31, 2^32, 2^53, 2^63, 2^64), each in its own
+// carrier: comparisons, equality and selection give what the exact integers
+// give (a binary-float detour merges neighbours above 2^53 / 2^24).
+var c14CloseExprs = []string{"a == b", "a != b", "a < b", "a <= b", "a > b", "contains([a], b)", "max([a, b]) == a", "sort([a, b])[0] == a", "[a][?@ == $.b] | length(@)", "b == a", "contains([b], a)"}
+
+func H_C14_close() {
+	expr := c14CloseExprs[vrtChoose("expr", len(c14CloseExprs))]
+	vrtNote("template:" + expr)
+	bases := []uint64{1 << 24, 1 << 31, 1 << 32, 1 << 53, 1 << 63, 1<<64 - 3}
+	base := bases[vrtChoose("base", len(bases))]
+	dx := vrtIntRange("dx", -2, 2)
+	dy := vrtIntRange("dy", -2, 2)
+	vx, vy := base+uint64(dx), base+uint64(dy) // wraps correctly for negative deltas
+	ca, cb := vrtChoose("ca", 9), vrtChoose("cb", 9)
+	a, ok1 := c14CarryBig(vx, false, ca)
+	b, ok2 := c14CarryBig(vy, false, cb)
+	vrtAssume(ok1 && ok2)
+	got, err := Search(expr, map[string]any{"a": a, "b": b})
+	vrtAssert(err == nil, "comparison evaluates")
+	if err != nil {
+		return
+	}
+	var want any
+	switch expr {
+	case "a == b", "contains([a], b)", "b == a", "contains([b], a)":
+		want = vx == vy
+	case "a != b":
+		want = vx != vy
+	case "a < b":
+		want = vx < vy
+	case "a <= b", "sort([a, b])[0] == a":
+		want = vx <= vy
+	case "a > b":
+		want = vx > vy
+	case "max([a, b]) == a":
+		want = vx >= vy
+	default:
+		if vx == vy {
+			want = int64(1)
+		} else {
+			want = int64(0)
+		}
+	}
+	vrtAssert(refEqual(got, want), "comparison of neighbouring values depends on the Go types that carry them")
+}
